@@ -530,7 +530,8 @@ func runC43(t *testing.T, tape *simrt.Tape, env dst.Env) *simrt.Outcome {
 			case 6:
 				simrt.FaultFired("pong-duplicated", "")
 				deliver(pong(pid, false), "pong", true, grid)
-				deliver(pong(pid, false), "pong (duplicate)", true, grid+100*time.Millisecond)
+				// (back to back as well: both are then handled before the waiter runs)
+				deliver(pong(pid, false), "pong (duplicate)", true, grid+time.Duration(tape.Choose(simrt.Net, 3)/2)*100*time.Millisecond)
 			case 7:
 				simrt.FaultFired("pong-late", "")
 				deliver(pong(pid, false), "late pong", true, timeout+grid)
@@ -646,7 +647,7 @@ func runC43(t *testing.T, tape *simrt.Tape, env dst.Env) *simrt.Outcome {
 				viol("C43.keepalive-missed", "keepalive-missed half-open", "client writes blocked from %v; the keep-alive ping due at %v (started by %v at the latest) could not get a pong, but the connection ended only at %v (ping timeout %v)", stallFrom, tick, begin, runEnd, timeout)
 			}
 		}
-		if stallFrom >= 0 && userDone && runErr == nil && runEnd > stallFrom+interval+2*timeout+time.Millisecond {
+		if stallFrom >= 0 && userDone && runEnd > stallFrom+interval+2*timeout+time.Millisecond {
 			viol("C43.keepalive-missed", "keepalive-missed half-open", "client writes blocked from %v, yet the connection was never ended by the keep-alive loop (ended normally at %v)", stallFrom, runEnd)
 		}
 	})
